@@ -2,6 +2,7 @@ use crate::common::Ctx;
 use crate::report::Report;
 
 pub mod diff;
+pub mod faults;
 pub mod foreign;
 pub mod handles;
 pub mod hist;
@@ -23,6 +24,8 @@ pub fn dispatch(ctx: &Ctx, rep: &mut Report) -> bool {
         "C09" => names::run_c09(ctx, rep),
         "C10" => more::run_c10(ctx, rep),
         "C11" => hostile::run_c11(ctx, rep),
+        "C12" => faults::run_c12(ctx, rep),
+        "C13" => faults::run_c13(ctx, rep),
         "C15" => more::run_c15(ctx, rep),
         "C16" => modes::run_c16(ctx, rep),
         "C17" => more::run_c17(ctx, rep),
